@@ -208,3 +208,7 @@ M("sup-trace-exit-suppresses", "C15", "httpcore/_trace.py", "                inf
 M("c01-h2-closed-after-stream-close", "C01", A + "http2.py", "        self._state = HTTPConnectionState.CLOSED\n        await self._network_stream.aclose()\n\n    # Wrappers around network", "        await self._network_stream.aclose()\n        self._state = HTTPConnectionState.CLOSED\n\n    # Wrappers around network", "C01.R10")
 M("sup-direct-connection-test-before-lock", "C08,C04", A + "connection.py", "            async with self._request_lock:\n                if self._connection is None:\n                    stream = await self._connect(request)\n",
   "            if self._connection is None:\n                async with self._request_lock:\n                    stream = await self._connect(request)\n", None)
+M("tl-auto-swaps-host-port-kw", "C10", "httpcore/_backends/auto.py", "            host,\n            port,\n            timeout=timeout,", "            host,\n            port or 80,\n            timeout=timeout,", "C10.R10")
+M("tl-auto-drops-local-address", "C10", "httpcore/_backends/auto.py", "            local_address=local_address,\n", "", "C10.R10")
+M("c13-end-stream-on-filtered-headers", "C13,C03", A + "http2.py", "        end_stream = not has_body_headers(request)", "        end_stream = request.stream is None", None)
+M("sup-tunnel-hop-inherits-h2", "C11,C10", A + "http_proxy.py", "            ssl_context=proxy_ssl_context,\n        )\n        self._proxy_origin = proxy_origin\n        self._remote_origin = remote_origin", "            ssl_context=proxy_ssl_context,\n            http2=http2,\n        )\n        self._proxy_origin = proxy_origin\n        self._remote_origin = remote_origin", None)
